@@ -1,5 +1,6 @@
 #!/usr/bin/env python3
-"""Merge the baseline evaluations into /verif/seeded/*/meta.json and print the DESIGN 10.7 table."""
+"""Merge the baseline evaluations into /verif/seeded/*/meta.json and print the DESIGN 10.6 table
+(caught now = the last tools/seed_rerun.py run recorded under final_run, else the evaluation at the time)."""
 import glob
 import json
 import os
@@ -36,9 +37,10 @@ for d in sorted(glob.glob("/verif/seeded/*")):
             what = line
             break
     before = ",".join(m.get("baseline", {}).get("detected_by", [])) if "baseline" in m else "n/a"
-    after = ",".join(m.get("detected_by", []))
+    fin = m.get("final_run")
+    after = ",".join((fin or m).get("detected_by", []))
     flags = []
-    for c, r in m["checks_run"].items():
+    for c, r in ((fin["checks"] if fin else m["checks_run"]).items()):
         if r["exit"] == 2:
             flags.append("exit 2")
         if r["exit"] == 0 and any(l.startswith("INCONCLUSIVE") for l in r["lines"]):
